@@ -189,3 +189,110 @@ Proof.
   split; [exact f15_generates|]. split; [vm_compute; reflexivity|]. split; [vm_compute; reflexivity|].
   split; [apply f15_refused|]. split; [apply f15_refused|]. split; [exact f15_not_conforms|apply f15_refused].
 Qed.
+
+(** ** the array REPEAT form [[ e ; n ]] needs a [Copy] element type when n >= 2.
+    [(String, u32)] is not [Copy]: the repeat form is refused by the token-level reader, by the
+    model-side reader [conforms_irb], and is NOT an instance ([repeat_noncopy_not_instance]); the
+    explicit list is accepted.  [(u8, u32)] is [Copy]: both forms are accepted.  A 1-element array
+    may be written in either form whatever its element type.  [[u8; 40]] IS [Copy] for the
+    specification ([copy_ty] has no length bound) although the implementation's heuristic says no
+    (it prints the list form for [[[u8; 40]; 2]]; both forms are accepted). *)
+Definition rpt_reg : registry :=
+  [ (0, mk_ty [] [] (TDPrimitive PStr) []);
+    (1, mk_ty [] [] (TDPrimitive PU32) []);
+    (2, mk_ty [] [] (TDTuple [0; 1]) []);     (* (String, u32) *)
+    (3, mk_ty [] [] (TDArray 3 2) []);        (* [(String, u32); 3] *)
+    (4, mk_ty [] [] (TDPrimitive PU8) []);
+    (5, mk_ty [] [] (TDTuple [4; 1]) []);     (* (u8, u32) *)
+    (6, mk_ty [] [] (TDArray 3 5) []);        (* [(u8, u32); 3] *)
+    (7, mk_ty [] [] (TDArray 1 2) []);        (* [(String, u32); 1] *)
+    (8, mk_ty [] [] (TDArray 40 4) []);       (* [u8; 40] *)
+    (9, mk_ty [] [] (TDArray 2 8) []) ].      (* [[u8; 40]; 2] *)
+
+Definition rpt_a : tokens := ["("; """a"""; "."; "into"; "("; ")"; ","; "1u32"; ","; ")"].
+Definition rpt_b : tokens := ["("; "1u8"; ","; "2u32"; ","; ")"].
+Definition rpt_c : tokens := ["["; "1u8"; ";"; "40usize"; "]"].
+
+Definition rpt_reads (id : N) (ts : tokens) : bool := conformsb rpt_reg "types" None [] id ts.
+Definition rpt_accepts (id : N) (ts : tokens) : bool := conforms_irb rpt_reg demo_settings [] id ts.
+
+Example rpt_copy :
+  map (copy_tyb rpt_reg) [0; 1; 2; 3; 4; 5; 6; 7; 8; 9]
+  = [false; true; false; false; true; true; true; false; true; true].
+Proof. vm_compute. reflexivity. Qed.
+
+Example rpt_reader :
+  rpt_reads 3 (["["] ++ rpt_a ++ [";"; "3usize"; "]"]) = false /\
+  rpt_reads 3 (["["] ++ rpt_a ++ [","] ++ rpt_a ++ [","] ++ rpt_a ++ ["]"]) = true /\
+  rpt_reads 6 (["["] ++ rpt_b ++ [";"; "3usize"; "]"]) = true /\
+  rpt_reads 6 (["["] ++ rpt_b ++ [","] ++ rpt_b ++ [","] ++ rpt_b ++ ["]"]) = true /\
+  rpt_reads 7 (["["] ++ rpt_a ++ [";"; "1usize"; "]"]) = true /\
+  rpt_reads 7 (["["] ++ rpt_a ++ ["]"]) = true /\
+  rpt_reads 9 (["["] ++ rpt_c ++ [";"; "2usize"; "]"]) = true /\
+  rpt_reads 9 (["["] ++ rpt_c ++ [","] ++ rpt_c ++ ["]"]) = true.
+Proof. vm_compute. repeat split; reflexivity. Qed.
+
+Example rpt_irb :
+  rpt_accepts 3 (["["] ++ rpt_a ++ [";"; "3usize"; "]"]) = false /\
+  rpt_accepts 3 (["["] ++ rpt_a ++ [","] ++ rpt_a ++ [","] ++ rpt_a ++ ["]"]) = true /\
+  rpt_accepts 6 (["["] ++ rpt_b ++ [";"; "3usize"; "]"]) = true /\
+  rpt_accepts 6 (["["] ++ rpt_b ++ [","] ++ rpt_b ++ [","] ++ rpt_b ++ ["]"]) = true /\
+  rpt_accepts 7 (["["] ++ rpt_a ++ [";"; "1usize"; "]"]) = true /\
+  rpt_accepts 9 (["["] ++ rpt_c ++ [";"; "2usize"; "]"]) = true.
+Proof. vm_compute. repeat split; reflexivity. Qed.
+
+(** what the model (= the implementation, [corr_example]) prints on this registry: the list for the
+    non-copy element, the repeat form for the copy element, the list for [[[u8; 40]; 2]] *)
+Example rpt_model :
+  generate rpt_reg demo_settings (types_equal rpt_reg) = Ok [] /\
+  example_rust rpt_reg demo_settings 3 [1; 2; 3; 4; 5; 6] =
+    XOk (let a := ["("; """Foo"""; "."; "into"; "("; ")"; ","; "2u32"; ","; ")"] in
+         ["["] ++ a ++ [","] ++ a ++ [","] ++ a ++ ["]"]) /\
+  example_rust rpt_reg demo_settings 6 [1; 2; 3; 4; 5; 6] = XOk (["["] ++ rpt_b ++ [";"; "3usize"; "]"]) /\
+  example_rust rpt_reg demo_settings 9 [1; 2; 3; 4; 5; 6] = XOk (["["] ++ rpt_c ++ [","] ++ rpt_c ++ ["]"]).
+Proof. vm_compute. repeat split; reflexivity. Qed.
+
+Ltac rlook :=
+  repeat match goal with
+  | L : lookup rpt_reg _ = Some _ |- _ => vm_compute in L; inversion L; subst; clear L
+  end;
+  repeat match goal with
+  | D : t_def _ = _ |- _ => cbn in D; try discriminate D; inversion D; subst; clear D
+  end.
+
+(** the seeded bug's output shape is not an instance of [[(String, u32); 3]] *)
+Lemma repeat_noncopy_not_instance :
+  ~ conforms rpt_reg demo_settings [] 3 (["["] ++ rpt_a ++ [";"; "3usize"; "]"]) [].
+Proof.
+  intros H.
+  destruct (repeat_needs_copy_tokens rpt_reg demo_settings [] 3 _ 3 2 _ [] H eq_refl eq_refl)
+    as (ts' & mid & E & Hc & _); [vm_compute; discriminate|reflexivity|].
+  unfold rpt_a in E. cbn [app] in E. inversion E; subst ts'; clear E H.
+  inversion Hc; subst; rlook.
+  match goal with S : conf_tuple _ _ _ _ |- _ => inversion S; subst; clear S end.
+  match goal with S : conforms _ _ _ 0 _ _ |- _ => inversion S; subst; clear S; rlook end.
+  match goal with S : prim_lit _ _ _ |- _ => cbn in S; destruct S as (x & _ & S); inversion S; subst; clear S end.
+  match goal with S : conf_tuple _ _ _ _ |- _ => inversion S; subst; clear S end.
+  match goal with S : conforms _ _ _ 1 _ _ |- _ => inversion S; subst; clear S; rlook end.
+  match goal with S : prim_lit _ _ _ |- _ => cbn in S; destruct S as (n & _ & S); inversion S; subst; clear S end.
+  match goal with S : conf_tuple _ [] _ _ |- _ => inversion S end.
+Qed.
+
+Lemma repeat_examples :
+  copy_tyb rpt_reg 2 = false /\ copy_tyb rpt_reg 5 = true /\
+  rpt_reads 3 (["["] ++ rpt_a ++ [";"; "3usize"; "]"]) = false /\
+  rpt_reads 3 (["["] ++ rpt_a ++ [","] ++ rpt_a ++ [","] ++ rpt_a ++ ["]"]) = true /\
+  rpt_reads 6 (["["] ++ rpt_b ++ [";"; "3usize"; "]"]) = true /\
+  rpt_accepts 3 (["["] ++ rpt_a ++ [";"; "3usize"; "]"]) = false /\
+  rpt_accepts 3 (["["] ++ rpt_a ++ [","] ++ rpt_a ++ [","] ++ rpt_a ++ ["]"]) = true /\
+  rpt_accepts 6 (["["] ++ rpt_b ++ [";"; "3usize"; "]"]) = true /\
+  ~ conforms rpt_reg demo_settings [] 3 (["["] ++ rpt_a ++ [";"; "3usize"; "]"]) [] /\
+  conforms rpt_reg demo_settings [] 3 (["["] ++ rpt_a ++ [","] ++ rpt_a ++ [","] ++ rpt_a ++ ["]"]) [] /\
+  conforms rpt_reg demo_settings [] 6 (["["] ++ rpt_b ++ [";"; "3usize"; "]"]) [].
+Proof.
+  split; [vm_compute; reflexivity|]. split; [vm_compute; reflexivity|].
+  split; [apply rpt_reader|]. split; [apply rpt_reader|]. split; [apply rpt_reader|].
+  split; [apply rpt_irb|]. split; [apply rpt_irb|]. split; [apply rpt_irb|].
+  split; [exact repeat_noncopy_not_instance|].
+  split; apply conforms_irb_sound; apply rpt_irb.
+Qed.
